@@ -200,7 +200,7 @@ func passS(repo string, cfg *vc.SolverConfig, only string) (*vc.PassResult, erro
 	vc.ApplyBindings(x, lr, all, bindingsFile, recordBindings)
 	configureS(x)
 	vc.VerifyAll(x, all, res)
-	if only == "" {
+	if only == "" || only == "structural" {
 		sStructural(x, lr, frames, res)
 	}
 	vc.Finish(x, cfg, res, start)
